@@ -548,7 +548,7 @@ NOTE:
     def _same(x, y): # equal, or equal to within floating-point rounding
         if x == y: return True
         from mystic.math import almostEqual
-        try: return bool(almostEqual(x, y, tol=0.0, rel=4.4e-16)) # (2 ulp)
+        try: return bool(almostEqual(x, y, tol=0.0, rel=8.8e-16)) # (< 1e-15, the step of a strict inequality)
         except Exception: return False
     def _constraint(x): #XXX: inefficient, rewrite without append
         x = [x.tolist() if hasattr(x, 'tolist') else x[:]]
